@@ -111,6 +111,34 @@ def one(task):
         return dict(task, status="skip")
     num = numbering(ge)
     r = dict(task, status="ok", states=len(T.lalr["states"]), actions=len(T.lalr["actions"]), productions=len(T.lr_prods))
+    if task.get("ambiguity_only"):
+        # C04, reporting half (partial): a grammar for which no conflict was reported must not be
+        # ambiguous within N (an ambiguous grammar is not LALR(1))
+        import z3
+        from engine_g import ambig
+        vocab = {k: i + 1 for i, k in enumerate(ge.term_order)}
+        toks, n, dom = C.token_vars(task["N"], max(1, len(vocab)))
+        try:
+            A = ambig.Ambiguity(ge.bnf, ge.start, vocab, toks, n, task["N"])
+            q = A.ambiguous_sentence()
+        except ambig.Cyclic as e:
+            r["ambiguity"] = {"status": "cyclic", "detail": str(e)}
+            return r
+        sv = z3.Solver()
+        sv.set("timeout", 240000)
+        sv.add(dom)
+        sv.add(q)
+        t1 = time.time()
+        st = sv.check()
+        d = {"status": str(st), "solver_s": round(time.time() - t1, 2)}
+        if st == z3.sat:
+            w = C.model_tokens(sv.model(), toks, n)
+            inv = {v: k for k, v in vocab.items()}
+            d.update(witness=w, witness_terminals=[inv[x][1] for x in w], trees=ambig.count_trees(ge.bnf, ge.start, w, vocab))
+            d["confirmed"] = d["trees"] >= 2
+        r["ambiguity"] = d
+        r["wall_s"] = round(time.time() - t0, 2)
+        return r
     r["structure"] = structure(T, ge, num)
     if ge.start != T.start:
         r["structure"].append("start symbol of the generated parser is %s, of the augmented grammar %s" % (T.start, ge.start))
@@ -165,6 +193,9 @@ def check_main(prop="C03", conflicts=False):
         if a["rc"] != 0 or not a.get("parser") or not a.get("e"):
             skipped.append({"grammar": a["grammar"], "why": "rejected by parol / generation failed or timed out (rc=%s): %s" % (a["rc"], a["out"][-120:])})
             continue
+        if conflicts and not a.get("resolved_conflicts"):
+            tasks.append({"grammar": a["grammar"], "parser": a["parser"], "e": a["e"], "N": N, "ambiguity_only": True})
+            continue
         if bool(a.get("resolved_conflicts")) != conflicts:
             # C03 quantifies over grammars accepted "without reporting any resolved conflict";
             # C04's soundness half over those WITH reported resolved conflicts
@@ -192,10 +223,27 @@ def check_main(prop="C03", conflicts=False):
             run.inconc("%s: %s %s" % (r["grammar"], r["status"], r.get("error", "")))
             continue
         programs += 1
-        for s in r["structure"]:
+        for s in r.get("structure", []):
             disagreements += 1
             run.violation("%s: generated LR tables are inconsistent with the augmented grammar: %s" % (r["grammar"], s),
                           {"grammar": r["grammar"], "kind": "structure", "issue": s})
+        amb = r.get("ambiguity")
+        if amb:
+            queries += 1
+            tsolver += amb.get("solver_s", 0)
+            if amb["status"] == "sat":
+                disagreements += 1
+                if amb.get("confirmed"):
+                    run.violation("%s: parol reported NO conflict, but the grammar handed to LALR(1) construction is ambiguous: token string [%s] has %d+ parse trees, so it is not LALR(1) and a conflict was resolved silently" % (
+                        r["grammar"], " ".join(amb["witness_terminals"]), amb["trees"]),
+                        {"grammar": r["grammar"], "kind": "unreported-conflict", "witness": amb["witness"], "N": r["N"]})
+                else:
+                    run.inconc("%s: ambiguity witness %s not confirmed by the tree counter (encoder defect)" % (r["grammar"], amb.get("witness")))
+            elif amb["status"] not in ("unsat", "cyclic"):
+                run.inconc("%s: ambiguity query %s" % (r["grammar"], amb["status"]))
+            if len(samples) < 6:
+                samples.append({"grammar": r["grammar"], "N": r["N"], "query": "exists sentence <= N with two parse trees (no conflict was reported)", "verdict": amb["status"], "solver_s": amb.get("solver_s")})
+            continue
         lr = r.get("lr") or {}
         for name, d in lr.items():
             queries += 1
@@ -235,7 +283,7 @@ def check_main(prop="C03", conflicts=False):
         "explanation": "LR automaton of the generated PARSE_TABLE unrolled over symbolic tokens (6N+10 steps, stack depth 2N+6, both bounds checked by a third query) vs bounded derivability in the grammar as written; plus accessing-symbol consistency of every reduce action (each reduction is a derivation step)",
     })
     if conflicts:
-        run.cov["explanation"] = "soundness half of C04 only: for every corpus grammar for which parol REPORTS resolved conflicts (shift over reduce, earlier production) the generated table, unrolled as an LR automaton over symbolic tokens, accepts no token string <= N that is not a sentence of the grammar as written. Whether every conflicting grammar is reported is NOT decided (it needs an independent LALR(1) construction)."
+        run.cov["explanation"] = "reporting half (PARTIAL): for every corpus grammar accepted WITHOUT a reported conflict z3 decides that no sentence <= N has two parse trees in the grammar handed to table construction (an ambiguous grammar is not LALR(1); non-LALR(1) grammars that are unambiguous are not detected). Soundness half: for every corpus grammar for which parol REPORTS resolved conflicts (shift over reduce, earlier production) the generated table, unrolled as an LR automaton over symbolic tokens, accepts no token string <= N that is not a sentence of the grammar as written. Whether every conflicting grammar is reported is NOT decided (it needs an independent LALR(1) construction)."
     run.assume("bounded: token strings of length <= %d; LALR corpus = repository + /verif/grammars grammars of type lalr(1); grammars whose generation exceeds the per-grammar time limit are skipped and listed" % N,
                "table construction 'completes without crashing' is observed natively on the corpus, not decided by the solver",
                "runtime side: LRParser::parse_into is not symbolically executed in this leg")
@@ -247,6 +295,10 @@ def replay(path):
     a = GL.generate([obj["grammar"]], want_parser=True)[0]
     r = one({"grammar": obj["grammar"], "parser": a["parser"], "e": a["e"], "N": obj.get("N", 6)})
     print(json.dumps({k: r.get(k) for k in ("structure", "lr")}, indent=1, default=str)[:3000])
+    if obj["kind"] == "unreported-conflict":
+        r = one({"grammar": obj["grammar"], "parser": a["parser"], "e": a["e"], "N": obj.get("N", 6), "ambiguity_only": True})
+        print(r.get("ambiguity"))
+        return 1 if (r.get("ambiguity") or {}).get("confirmed") else 0
     if obj["kind"] == "structure":
         return 1 if r.get("structure") else 0
     d = (r.get("lr") or {}).get(obj["kind"], {})
